@@ -181,12 +181,6 @@ func (e *signEnv) run(cs *signCase) {
 		q.Set("rfc3161-timestamp", "false")
 	}
 	seq := cs.Seq
-	if cs.Pool == "default" || cs.Pool == "flag-off" {
-		// the default pools always have three URLs; pad with authorities that must never be reached
-		for len(seq) < 3 {
-			seq = append(append([]string{}, seq...), "garbage")
-		}
-	}
 	var tc *tsaCase
 	if tsaKey != "" {
 		tc = &tsaCase{style: cs.Style, seq: seq, reqOK: true, sent: map[int][]byte{}, encdigFree: true}
@@ -357,6 +351,13 @@ func buildSignCases(tier string) []*signCase {
 	var cases []*signCase
 	id := 100000
 	add := func(typ, file, style, pool string, seq []string) {
+		if pool == "default" || pool == "flag-off" {
+			// the default pools always have three URLs; pad with authorities that are reached only if all before fail
+			seq = append([]string{}, seq...)
+			for len(seq) < 3 {
+				seq = append(seq, "garbage")
+			}
+		}
 		cs := &signCase{ID: id, Kind: "sign", Type: typ, File: file, Style: style, Pool: pool, Seq: seq}
 		for _, n := range seq {
 			cs.Attrs = append(cs.Attrs, behaviourByName(style, n).a)
